@@ -436,7 +436,11 @@ impl Server {
         let must_notify = history.update(
             report, exceptions, metrics,
         );
+        #[cfg(routinator_verif)]
+        crate::verif::preempt("server-after-update");
         history.mark_update_done();
+        #[cfg(routinator_verif)]
+        crate::verif::preempt("server-after-mark-done");
         if log::max_level() >= log::Level::Info {
             let (metrics, serial, duration) = {
                 let history = history.read();
@@ -465,8 +469,27 @@ impl Server {
         if must_notify {
             info!("Sending out notifications.");
             notify.notify();
+            #[cfg(routinator_verif)]
+            crate::verif::trace("Notify", &[]);
         }
+        #[cfg(routinator_verif)]
+        crate::verif::preempt("server-after-notify");
         Ok(())
+    }
+
+    /// Hook H7: public access to `process_once` for the verification harness.
+    #[cfg(routinator_verif)]
+    pub fn verif_process_once(
+        config: &Config,
+        engine: &Engine,
+        history: &SharedHistory,
+        notify: &mut NotifySender,
+        exceptions: &LocalExceptions,
+        initial: bool,
+    ) -> Result<(), RunFailed> {
+        Self::process_once(
+            config, engine, history, notify, exceptions, initial
+        )
     }
 }
 
